@@ -266,6 +266,15 @@ func (p *printer) body(n Node, afterExpr, beforeElse bool) {
 		if first == "(" || first == "[" || isStickyByte(first[0]) {
 			brace = true
 		}
+		// `X (` continues X only when X ends in a variable name (a call); after a literal, `true`/`false`, `)` or
+		// `]` a body may start with a parenthesis (half of the time it is left unbraced)
+		if first == "(" && len(p.toks) > 0 && p.l.chance(50) {
+			last := p.toks[len(p.toks)-1]
+			c := last[0]
+			if last == "true" || last == "false" || c >= '0' && c <= '9' || c == '"' || last == ")" || last == "]" {
+				brace = false
+			}
+		}
 		// redundant parentheses chosen later could also start with '('
 		if p.l.ExtraParens > 0 && IsExpr(n) {
 			brace = true
